@@ -237,7 +237,11 @@ class MultiStepReplayBuffer(ReplayBuffer):
         n_step_reward = n_step_reward.clone()
 
         # Get the last next_state and done flag
-        for i, transition in enumerate(list(self.n_step_buffer)[1:]):
+        transitions = list(self.n_step_buffer)[1:]
+        if first_transition[self.done_key].bool().any():
+            transitions = []  # Episode terminated at the first step: nothing to accumulate
+
+        for i, transition in enumerate(transitions):
             # Add discounted reward
             reward: torch.Tensor = transition[self.reward_key]
             n_step_reward += reward * (self.gamma ** (i + 1))
